@@ -11,8 +11,9 @@ CFG = {'assumptions': ['tokio timer, mpsc and oneshot semantics; xxh64 collision
                'scheduling outside the model',
  'level_text': 'Lean theorems: CommandHeaders.compare as iff (items, header, header list), command success '
                'only by compare in the operate step, OPERATE only from a faithful SELECT echo with the next '
-               'sequence number, every error exit completes the promise once, timed-out waits end; D24 as '
-               'counterexample',
+               'sequence number, every error exit completes the promise once, timed-out waits end, no '
+               'message extends a response wait, link status check bounded by one response timeout (D24 '
+               'repaired; regression corpus harness/corpus/C16/master_D24.ops)',
  'module': 'Dnp3.Props.C16',
  'monitors': ['command_ok_iff_echo',
               'sbo_operate_follows_select',
